@@ -431,3 +431,93 @@ unidentified = FunctionContract(
             ("for idx in idxs[0]:\n                    molecule.remove_node(idx)", "for idx in idxs[1]:\n                    molecule.remove_node(idx)")],
 )
 CONTRACTS.append(unidentified)
+
+
+# ------------------------------------------------------------------ find_ptm_atoms: every unrecognised atom in exactly one branch
+def setup_fpa(cx):
+    from pyvc.builtins import make_iter
+    NODESET = cx.val('NODESET', TSet(MNode))               # the atoms of the molecule
+    cx.spec_env['NODESET'] = NODESET
+    adj = cx.uf('adj', [MNode], TSet(MNode))               # the neighbours of an atom
+    ptm_flag = cx.uf('ptm_flag', [MNode], TBool)           # the atom's PTM_atom attribute is set (RepairGraph marks what it cannot name)
+    has_mods = cx.uf('has_mods', [MNode], TBool)           # the atom carries a non-empty list of modifications
+
+    def node(e, n):
+        ne = to_z3(n, MNode)
+
+        def get(e2, k, d=None):
+            if k == 'PTM_atom' and d is False:
+                return wrap(TBool, ptm_flag(ne))
+            if k == 'modifications' and d is None:
+                return wrap(TBool, has_mods(ne))            # only its truth value is used
+            raise EngineError('node.get(%r, %r)' % (k, d))
+        return Obj('molnode', get=Builtin(get, 'node.get'))
+    molecule = Obj('Molecule', nodes=Obj('NodeView', __getitem__=Builtin(node, 'molecule.nodes[]')), __getitem__=Builtin(
+        lambda e, n: Obj('AtlasView', keys=Builtin(lambda e2: SV(TSet(MNode), adj(to_z3(n, MNode))), 'molecule[n].keys')), 'molecule[]'))
+    molecule.__dict__['iter'] = make_iter(cx.eng, NODESET)
+    return dict(molecule=molecule)
+
+
+SPEC_FPA = {
+    # the unrecognised atoms: marked as such, or carrying modifications
+    'unrec': "lambda n: n in NODESET and (ptm_flag(n) or has_mods(n))",
+    'covered': "lambda n, P: exists(lambda j: 0 <= j and j < len(P) and n in P[j][0])",
+    'reached': "lambda n, A: exists(lambda a: a in A and n in adj(a), MNode)",
+}
+FPA_BR = [
+    # the atoms of a branch are unrecognised atoms, taken out of the work set; no atom is in two branches
+    "forall(lambda j, n: implies(0 <= j and j < len({P}) and n in {P}[j][0], n in g_E and not (n in {X})), TInt, MNode)",
+    "forall(lambda j, k, n: implies(0 <= j and j < k and k < len({P}) and n in {P}[j][0], not (n in {P}[k][0])), TInt, TInt, MNode)",
+    # a branch is closed: an unrecognised neighbour of one of its atoms is in it, any other neighbour is one of its anchors
+    "forall(lambda j, a, nb: implies(0 <= j and j < len({P}) and a in {P}[j][0] and nb in adj(a), "
+    "   (nb in {P}[j][0]) if nb in g_E else (nb in {P}[j][1])), TInt, MNode, MNode)",
+    # anchors are recognised atoms
+    "forall(lambda j, n: implies(0 <= j and j < len({P}) and n in {P}[j][1], not (n in g_E)), TInt, MNode)",
+]
+find_ptm_atoms = FunctionContract(
+    F, 'find_ptm_atoms', 'C14', setup=setup_fpa, spec_defs=SPEC_FPA, spec_env=dict(MNode=MNode),
+    # an undirected graph
+    requires=["forall(lambda a, b: (b in adj(a)) == (a in adj(b)), MNode, MNode)"],
+    ensures=[
+        # every unrecognised atom is in a branch ...
+        # (g_E is the set built by the first statement: exactly the unrecognised atoms)
+        "forall(lambda n: (n in g_E) == unrec(n), MNode)",
+        "forall(lambda n: implies(n in g_E, covered(n, result)), MNode)",
+        # ... in exactly one, and a branch is a set of unrecognised atoms closed under the bonds among them, with all the
+        # recognised neighbours as its anchors
+        FPA_BR[0].format(P='result', X='extra_atoms'), FPA_BR[1].format(P='result'), FPA_BR[2].format(P='result'),
+        FPA_BR[3].format(P='result'),
+    ],
+    locals=dict(ptms=TSeq(PtmAtoms), atoms=TSet(MNode), anchors=TSet(MNode), to_see=TSet(MNode), orig=MNode, g_P=TSeq(PtmAtoms), extra_atoms=TSet(MNode), g_E=TSet(MNode)),
+    loops={
+        'L1': LoopSpec(inv=["forall(lambda n: implies(n in extra_atoms, n in g_E), MNode)",
+                            "forall(lambda n: implies(n in g_E, n in extra_atoms or covered(n, ptms)), MNode)"]
+                       + [x.format(P='ptms', X='extra_atoms') for x in FPA_BR],
+                       modifies=['extra_atoms', 'ptms']),
+        'L1.1': LoopSpec(inv=["forall(lambda n: implies(n in atoms, n in extra_atoms), MNode)",
+                              "forall(lambda n: implies(n in anchors, not (n in extra_atoms)), MNode)",
+                              "forall(lambda a, nb: implies(a in atoms and nb in adj(a), nb in atoms or nb in anchors or nb in to_see or nb == orig), "
+                              "   MNode, MNode)",
+                              "forall(lambda n: implies(n in anchors or n in to_see, reached(n, atoms)), MNode)",
+                              "orig in extra_atoms or reached(orig, atoms)"],
+                         modifies=['atoms', 'anchors', 'to_see']),
+    },
+    # the new branch is the last one (names the witness of `covered` for the solver)
+    ghost_at={'after:stmt:extra_atoms = set(': "g_E = set(extra_atoms)",
+              'before:stmt:ptms.append((atoms, anchors))':
+              "g_P = list(ptms)\n"
+              "prove(forall(lambda a, nb: implies(a in atoms and nb in adj(a), nb in atoms or nb in anchors), MNode, MNode), 'neighbours-seen')\n"
+              "prove(forall(lambda nb, a: implies(covered(nb, ptms) and a in adj(nb) and a in g_E, not (a in extra_atoms)), MNode, MNode), "
+              "      'neighbours-of-earlier-branches-are-taken')\n"
+              "prove(forall(lambda a, nb: implies(a in atoms and nb in adj(a) and nb in g_E, nb in atoms), MNode, MNode), 'branch-closed')\n"
+              "prove(forall(lambda n: implies(n in anchors, not (n in g_E)), MNode), 'anchors-recognised')",
+              'after:stmt:ptms.append((atoms, anchors))':
+              "prove(forall(lambda n: implies(n in atoms, n in ptms[len(ptms) - 1][0]), MNode), 'last-branch')\n"
+              "prove(forall(lambda j: implies(0 <= j and j < len(g_P), ptms[j] == g_P[j])), 'earlier-branches-kept')\n"
+              "prove(forall(lambda n: implies(covered(n, g_P), covered(n, ptms)), MNode), 'covered-stays')"},
+    canary=[("extra_atoms -= atoms", "pass"),
+            ("or molecule.nodes[n_idx].get('modifications')))", "and molecule.nodes[n_idx].get('modifications')))"),
+            ("anchors.add(orig)", "atoms.add(orig)"),
+            ("to_see.update(molecule[orig].keys())", "pass")],
+)
+CONTRACTS.append(find_ptm_atoms)
